@@ -39,7 +39,7 @@ from onnx import AttributeProto, TensorProto, helper, numpy_helper
 from harness import c05_lib as L
 from harness.common import Run, coq_str
 
-CONE = ["NodeProto.v", "NodeProtoFacts.v"]
+CONE = ["NodeProto.v", "NodeProtoFacts.v", "NodeProtoKeys.v"]
 PROPS = "props/C05.v"
 VERSIONS = (17, 18, 19, 20, 21)
 HEADER = ("From Coq Require Import List String Bool ZArith NArith.\nFrom Spox Require Import NodeProto.\nImport ListNotations.\n"
@@ -490,7 +490,7 @@ def _map_tensor(t, f):
     return [t[0], _map_tensor(t[1], f)]
 
 
-def mutate(rng, spec, ci):
+def mutate(rng, spec, ci, force_kind=None):
     """One mutated copy of the spec (or None if the drawn mutation does not apply)."""
     s = dict(spec)
     s["node"] = onnx.NodeProto()
@@ -501,7 +501,7 @@ def mutate(rng, spec, ci):
     names = [x for x in dict.fromkeys(n.input) if x]
     kinds = ["elem", "rank", "dim-unknown", "dim-symbolic", "rank-unknown", "untyped", "drop-optional", "dup-optional",
              "same-var", "attr-perturb", "attr-remove", "attr-explicit-default", "const-one", "const-all", "variadic-len"]
-    kind = rng.choice(kinds)
+    kind = force_kind or rng.choice(kinds)
     s["mut"] = kind
     s["base_other_schema"] = spec.get("mut") == "other-schema" or spec.get("base_other_schema", False)
     if kind in ("elem", "rank", "dim-unknown", "dim-symbolic", "rank-unknown", "untyped"):
@@ -1078,6 +1078,19 @@ def class_table_obligations(run, st):
             if bad:
                 run.fail("proof", f"C05/class-table/{op}@{v}", "a hypothesis of the C05 theorems fails for a shipped class", bad)
     st["classes_checked"] = n
+    # the signature-level hypothesis of C05_keys_ok_from_signature, evaluated by the model for every distinct class
+    distinct = {}
+    for v in VERSIONS:
+        for op in module(v)._OPERATORS:
+            ci = info(v, op)
+            distinct[(ci.op, ci.version)] = ci
+    keys = sorted(distinct)
+    res = run.coq_eval("sigs", HEADER, [f"sig_keys_ok {distinct[k].coq_sig()} && onnx_shape (s_ins {distinct[k].coq_sig()}) && "
+                                        f"onnx_shape (s_outs {distinct[k].coq_sig()})" for k in keys], shard=100)
+    for k, r in zip(keys, res):
+        if r.strip() != "true":
+            run.fail("proof", f"C05/sig-keys-ok/{k[0]}@{k[1]}", "sig_keys_ok / onnx_shape is false for a shipped class", {"class": k, "model": r})
+    st["distinct_classes_sig_keys_ok"] = len(keys)
 
 
 # ------------------------------------------------------------------------------------------------ isolated, parallel evaluation
@@ -1242,11 +1255,20 @@ def run(run: Run) -> int:
                 all_specs.append({"v": v, "op": hand_ops[name], "src": name, "mut": "hand", "hand": name})
     tries = 0
     n_base = len(all_specs)
+    variadic_bases = [b for b in base_specs if info(b["v"], b["op"]).in_slots and info(b["v"], b["op"]).in_slots[-1][1] == "VARIADIC"]
+    optional_bases = [b for b in base_specs if any(k == "OPTIONAL" for _, k in info(b["v"], b["op"]).in_slots)]
     while len(all_specs) - n_base < n_mut and tries < n_mut * 8:
         tries += 1
-        base = rng.choice(base_specs)
+        r = rng.random()
+        force = None
+        if r < 0.04 and variadic_bases:
+            base, force = rng.choice(variadic_bases), "variadic-len"
+        elif r < 0.10 and optional_bases:
+            base, force = rng.choice(optional_bases), rng.choice(["drop-optional", "dup-optional"])
+        else:
+            base = rng.choice(base_specs)
         try:
-            ms = mutate(rng, base, info(base["v"], base["op"]))
+            ms = mutate(rng, base, info(base["v"], base["op"]), force)
         except Exception:  # noqa: BLE001
             ms = None
         if ms is not None:
